@@ -23,6 +23,20 @@ def template(nt, nf, dt, df, order, content, t0=1.0, f0=100.0):
     return xr.DataArray(vals, dims=order, coords={"time": t, "frequency": f})
 
 
+def independent_shape(g):
+    """the shapely shape of a geometry, built here from its coordinates (not through the library's conversion)"""
+    c = g.coordinates
+    if g.type == "BoundingBox":
+        return shapely.box(c[0], c[1], c[2], c[3])
+    if g.type == "TimeInterval":
+        return shapely.box(c[0], 0.0, c[1], data.MAX_FREQUENCY)
+    if g.type == "Polygon":
+        return shapely.Polygon(c[0], c[1:])
+    if g.type == "MultiPolygon":
+        return shapely.MultiPolygon([shapely.Polygon(part[0], part[1:]) for part in c])
+    return geometry_to_shapely(g)
+
+
 def reference(geoms, values, arr, fill, all_touched):
     nt, nf = arr.sizes["time"], arr.sizes["frequency"]
     out = np.full((nt, nf), fill, dtype=float)
@@ -36,7 +50,7 @@ def reference(geoms, values, arr, fill, all_touched):
             if x > c[-1]:
                 return len(c)
             return max(k for k in range(len(c)) if c[k] <= x)
-        shp = shapely.transform(geometry_to_shapely(g), lambda cs: np.array([[index(tc, x), index(fc, y)] for x, y in cs], dtype=float))
+        shp = shapely.transform(independent_shape(g), lambda cs: np.array([[index(tc, x), index(fc, y)] for x, y in cs], dtype=float))
         for i in range(nt):
             for j in range(nf):
                 centre = shapely.Point(i + 0.5, j + 0.5)
@@ -62,6 +76,14 @@ def main():
                   data.TimeInterval(coordinates=[t0 + 0.5 * dt, t0 + (nt + 2) * dt])]
         poly = [data.Polygon(coordinates=[[[t0, f0], [t0 + (nt - 1) * dt, f0], [t0 + (nt - 1) * dt / 2, f0 + (nf - 1) * df]]])] if nt > 1 and nf > 1 else []
         cases = [([b], 1) for b in boxes] + [(poly, 2)] * bool(poly) + ([(boxes[:3], [1, 2, 3])] if len(boxes) >= 3 else []) + [([g], 4) for g in beyond]
+        if nt >= 5 and nf >= 4:
+            # holes: a polygon and a two-part multipolygon whose parts have holes large enough to contain cell centres
+            def ring(a, b, c, d):
+                return [[t0 + a * dt, f0 + b * df], [t0 + c * dt, f0 + b * df], [t0 + c * dt, f0 + d * df], [t0 + a * dt, f0 + d * df]]
+            holed = data.Polygon(coordinates=[ring(0, 0, nt - 1, nf - 1), ring(1.2, 1.2, nt - 2.2, nf - 2.2)])
+            multi = data.MultiPolygon(coordinates=[[ring(0, 0, 2.6, nf - 1), ring(0.7, 0.7, 1.9, nf - 1.7)],
+                                                   [ring(2.9, 0, nt - 1, nf - 1), ring(3.2, 1.1, nt - 1.3, nf - 1.4), ring(3.2, 0.2, nt - 1.3, 0.8)]])
+            cases += [([holed], 5), ([multi], 6)]
         for geoms, values in cases:
             for fill, at in ((0, False), (-1, False), (0, True)):
                 key = f"{nt}x{nf}:{dt}:{t0}:{order[0]}:{[g.coordinates for g in geoms]}:{values}:{fill}:{at}"
